@@ -112,6 +112,7 @@ package rib
 
 //@ inline RIB.Flush$1
 
+//@ pred totalEntries(h *RIBHolder) = len(h.r.Afts.Ipv4Entry) + len(h.r.Afts.Ipv6Entry) + len(h.r.Afts.LabelEntry) + len(h.r.Afts.NextHopGroup) + len(h.r.Afts.NextHop)
 //@ unit RIB.Flush
 //@ requires holdersWF(r) && pendingWF(r) && ribQuiet(r) && unixTS != nil
 //@ requires[gate-wired] gateInv(r)
@@ -141,10 +142,23 @@ package rib
 //@ loop 7 invariant dom(niR.r.Afts.Ipv4Entry) == emptyset(string) && dom(niR.r.Afts.Ipv6Entry) == emptyset(string) && dom(niR.r.Afts.LabelEntry) == emptyset(aft.Afts_LabelEntry_Label_Union)
 //@ loop 8 at "range niR.r.Afts.NextHop" invariant len(errs) == 0 && holdersWF(r) && allTablesNonNil(r) && registered(r, niR) && (forall k in visited :: !(k in dom(niR.r.Afts.NextHop)))
 //@ loop 8 invariant dom(niR.r.Afts.Ipv4Entry) == emptyset(string) && dom(niR.r.Afts.Ipv6Entry) == emptyset(string) && dom(niR.r.Afts.LabelEntry) == emptyset(aft.Afts_LabelEntry_Label_Union) && dom(niR.r.Afts.NextHopGroup) == emptyset(uint64)
+// C16: flushing one instance notifies the post-change hook once per entry removed (as a count: hookCount + number of entries
+// still installed is constant while the instance is emptied).
+//@ at "niR.mu.Lock()" ghost hcB = hookCount
+//@ at "niR.mu.Lock()" ghost totB = totalEntries(niR)
+//@ loop 2 invariant[removed-entries-notified] (niR.postChangeHook != nil ==> hookCount + totalEntries(niR) == hcB + totB) && (niR.postChangeHook == nil ==> hookCount == hcB)
+//@ loop 3 invariant[removed-entries-notified] (niR.postChangeHook != nil ==> hookCount + totalEntries(niR) == hcB + totB) && (niR.postChangeHook == nil ==> hookCount == hcB)
+//@ loop 4 invariant[removed-entries-notified] (niR.postChangeHook != nil ==> hookCount + totalEntries(niR) == hcB + totB) && (niR.postChangeHook == nil ==> hookCount == hcB)
+//@ loop 5 invariant[removed-entries-notified] (niR.postChangeHook != nil ==> hookCount + totalEntries(niR) == hcB + totB) && (niR.postChangeHook == nil ==> hookCount == hcB)
+//@ loop 6 invariant[removed-entries-notified] (niR.postChangeHook != nil ==> hookCount + totalEntries(niR) == hcB + totB) && (niR.postChangeHook == nil ==> hookCount == hcB)
+//@ loop 7 invariant[removed-entries-notified] (niR.postChangeHook != nil ==> hookCount + totalEntries(niR) == hcB + totB) && (niR.postChangeHook == nil ==> hookCount == hcB)
+//@ loop 8 invariant[removed-entries-notified] (niR.postChangeHook != nil ==> hookCount + totalEntries(niR) == hcB + totB) && (niR.postChangeHook == nil ==> hookCount == hcB)
+//@ loop 1 invariant[removed-entries-notified] len(networkInstances) == 1 && old(r.niRIB[networkInstances[0]].postChangeHook) != nil ==> hookCount == old(hookCount) + ite(loopi == 0, 0, old(totalEntries(r.niRIB[networkInstances[0]])))
+//@ ensures[removed-entries-notified] len(networkInstances) == 1 && old(r.niRIB[networkInstances[0]].postChangeHook) != nil ==> hookCount == old(hookCount) + old(totalEntries(r.niRIB[networkInstances[0]]))
 // C03/C08: every flushed entry releases its reference where it points: in the instance it names, or its own.
 //@ assert at "referencedRIB.decNHGRefCount(entry.GetNextHopGroup())" [release-where-referenced] referencedRIB == refTarget(r, niR, rangeval.GetNextHopGroupNetworkInstance()) && refOK(r, rangeval.GetNextHopGroupNetworkInstance())
 //@ assigns ribState, hookCount
-//@ props C08 C03 C12:safety
+//@ props C08 C03 C16:#removed-entries-notified C12:safety
 
 //@ guarded_by niRefCounter.mu: NextHop, NextHopGroup
 
@@ -1296,7 +1310,7 @@ package rib
 //@   && dom(result0.refCounts.NextHop) == emptyset(uint64) && dom(result0.refCounts.NextHopGroup) == emptyset(uint64)
 //@ ensures[tables-nil] result0.r.Afts.Ipv4Entry == nil && result0.r.Afts.Ipv6Entry == nil && result0.r.Afts.LabelEntry == nil && result0.r.Afts.NextHopGroup == nil && result0.r.Afts.NextHop == nil
 //@ assigns nothing
-//@ props C16 C01 C12:safety
+//@ props C02 C03 C16 C01 C12:safety
 
 //@ unit RIB.SetPostChangeHook
 //@ requires r != nil && (forall k in dom(r.niRIB) :: r.niRIB[k] != nil) && nolocks(RIBHolder.mu) && held(r.nrMu) == 0
@@ -1317,7 +1331,7 @@ package rib
 //@ ensures[wf] holdersWF(r)
 //@ ensures[others] forall k in old(dom(r.niRIB)) :: k in dom(r.niRIB) && r.niRIB[k] == old(r.niRIB[k])
 //@ assigns r.niRIB[name]
-//@ props C16 C02 C12:safety C11:lock
+//@ props C03 C16 C02 C12:safety C11:lock
 
 //@ unit New
 //@ ensures[wf] result0 != nil && fresh(result0) && holdersWF(result0) && pendingWF(result0) && hookInv(result0)
@@ -1326,4 +1340,4 @@ package rib
 //@ ensures[nothing-held] dom(result0.pendingEntries) == emptyset(uint64)
 //@ ensures[gate] gateInv(result0) && (result0.ribCheck <==> !(exists i in 0..len(opt) :: istype(opt[i], *disableCheckFn))) && (result0.disableForwardReferences <==> (exists i in 0..len(opt) :: istype(opt[i], *disableForwardRef)))
 //@ assigns nothing
-//@ props C16 C01 C12:safety
+//@ props C02 C03 C16 C01 C12:safety
